@@ -202,7 +202,7 @@ func runWire(c *fw.Ctx) {
 		lines := segs[d.idx]
 		c.Observe("strace", "syscalls-inspected", len(lines))
 		checked++
-		vs, judged, unresolved := inspect(lines, sb, d.cs)
+		vs, judged, unresolved := inspect(lines, sb, d.cs, workdir)
 		c.Observe("strace", "paths judged (root spelled: "+spelling+")", judged)
 		if unresolved > 0 {
 			c.Observe("strace", "relative strings without a directory annotation, not judged (root spelled: "+spelling+")", unresolved)
